@@ -27,6 +27,18 @@ Read again : ONE long-lived handle, the damage in place, the nine reads (API x v
              nine reads run again through the same handle: each raises or returns the complete answer.  Outcome,
              trace and yielded prefix of every such read are also compared with the model's read_current on the store
              of that moment (read_current_again_after_raise).
+Blocks     : Avro containers of SEVERAL blocks -- variant `blocks` (manifest list and manifests re-encoded one record per
+             block; the whole damage matrix) and a bulk commit whose manifest spans several blocks by itself (entry size
+             measured, writer's default block size) -- with damage placed by BLOCK: for the first, second and last block
+             (thorough: every block) the file cut in the middle of the block, everything from there on replaced by random
+             bytes, the block's count byte flipped, and a stream that fails once the bytes before that point have been
+             delivered.  A streaming decoder has then handed out the records of the leading blocks (`prefix`) before it
+             raises; in the read-again sessions every read runs TWICE with the damage in place (after its own earlier
+             raise and after every other API's) and once after it has cleared: a reader or handle that keeps what a
+             failed decode had gathered returns a subset there.  Model/ReadBlocks.v (stream / collect over block
+             decodings; C14_blocks_all_or_nothing, C14_bad_manifest_block_fails_closed, C14_decode_cache_transparent) is
+             compared with fastavro on every container byte string of those tables (collect_blocks: records, raise, and
+             the number of records handed out before the raise).
 Mid-call   : the store changes DURING a read: the damage is applied when the k-th storage operation on the target file
              has finished, for every k the code under test performs in that call (a re-read of a file is a new slot).
              The call must raise or return the answer of the table as it was; on a checksummed data file with
@@ -75,7 +87,13 @@ MANIFEST_ENTRY = {
                   "on fresh handles, on a handle that has already read the undamaged table (read, damage, read again), on a handle "
                   "on which a read has already RAISED (damage, read, read again with the damage in place and after it has cleared; "
                   "C14_history_independent), on tables whose history contains deletes / rewrites (C14_checksum_survives_history) and "
-                  "with the damage applied DURING the call after each storage operation on the target file (C14_no_check_use_gap)",
+                  "with the damage applied DURING the call after each storage operation on the target file (C14_no_check_use_gap), "
+                  "and on manifest lists / manifests that span SEVERAL Avro blocks (re-encoded one record per block; a bulk commit) "
+                  "damaged block by block -- cut, overwritten, count flipped, stream failing after the leading blocks were delivered -- "
+                  "with every read repeated on the same handle (C14_blocks_all_or_nothing, C14_blocks_raise_at_first_bad_block, "
+                  "C14_bad_manifest_block_fails_closed, C14_bad_list_block_fails_closed over Model/ReadBlocks.v: a container is a list of "
+                  "blocks of any number and size, the reader returns all records of all blocks or raises; C14_decode_cache_transparent / "
+                  "C14_eager_decode_cache_refuted: a per-handle decode cache is invisible iff it registers only complete decodes)",
     "level_note": "PARTIAL in one case, kept visible as C14_fail_closed_full / C14_not_empty_full (Definitions) + their _refuted "
                   "theorems: the current metadata file deleted while the pointer names it -- refresh() recovers the previous version "
                   "(as C10 demands) and every API returns its rows; on a table with ONE commit that version is v0 and the broken "
@@ -85,6 +103,10 @@ MANIFEST_ENTRY = {
                   "(caller-built DataFile without one: outside). C14_history_independent and C14_list_fields_without_read_meaning "
                   "hold by construction of the model (a handle has no read state; only the manifest path of a list entry is "
                   "projected); the same-handle and field-edit correspondences are what tie them to the code. "
+                  "The block theorems speak of the decoders as [collect] over per-block decodings (with_block_decoders); that fastavro "
+                  "behaves so is measured (correspondence collect_blocks), that the code's loop keeps its accumulator local is pinned by the "
+                  "golden AST of read_manifest_file / read_manifest_list_file; the code has no decode cache (C14_decode_cache_transparent "
+                  "states what one would have to satisfy). "
                   "Hypothesis json_not_avro (bytes the JSON fallback "
                   "accepts make fastavro raise a fallback class) is checked on every byte string of every run. "
                   "Filters/pruning are outside the model (C12/C13); a match-all filter is exercised by the oracle only. "
@@ -2118,7 +2140,74 @@ def wide_commit_shape(path: str) -> List[Any]:
     return [[1] * (int(1.3 * SYNC_INTERVAL / per_entry) + 2)]
 
 
-def oracle_reread(ctx, path: str, shape: List[Any], variant: Optional[str], tag: str, data_limit: Optional[int] = None) -> None:
+def block_decoding(kind: str, b: bytes) -> Optional[List[Tuple[str, Any]]]:
+    """The container split at its sync markers and every block decoded ON ITS OWN (header + that one block; what
+    follows the last marker is a block too): [("good", records) | ("bad", mro)].  None: no header, no container."""
+    bounds = avro_boundaries(b)
+    if not bounds:
+        return None
+    header = b[:bounds[0]]
+    pieces = [b[s_:e_] for s_, e_ in zip(bounds, bounds[1:])]
+    if bounds[-1] < len(b):
+        pieces.append(b[bounds[-1]:])
+    out: List[Tuple[str, Any]] = []
+    for piece in pieces:
+        r = classify(kind, header + piece)
+        out.append(("good", r[1]) if r[0] == "ok" else ("bad", r[1]))
+    return out
+
+
+def corr_blocks(ctx, mc: "ModelCtx", strings: List[Tuple[str, bytes]], tag: str) -> None:
+    """Model/ReadBlocks.v against fastavro: for every container byte string in play (undamaged and damaged), the
+    blocks decoded one by one, folded by the model's reader loop [collect] / iterator [stream], must give what
+    fastavro gives on the whole file: the same records when it returns, a raise when it raises, and -- the part a
+    reader must not keep -- the same number of records handed out BEFORE the raise."""
+    cases, exprs = [], []
+    for role, b in dict.fromkeys(strings):
+        kind = "avro_list" if role == "list" else "avro_man"
+        blocks = block_decoding(kind, b)
+        if blocks is None:
+            continue
+        render = mc.paths if role == "list" else mc.dfiles
+        term = "[" + "; ".join(f"BGood {render(v)}" if g == "good" else f"BBad {mc.mro(v)}" for g, v in blocks) + "]"
+        proj = "(fun x => x)" if role == "list" else "(fun d => (dpath d, dcount d, dsum d))"
+        exprs.append(f"(match collect {term} with AvOk xs => (true, map {proj} xs) | AvRaise _ => (false, []) end, "
+                     f"N.of_nat (List.length (fst (stream {term}))), N.of_nat (List.length {term}))")
+        cases.append((role, kind, b))
+    if not exprs:
+        return
+    try:
+        got = coqbuild.coq_eval(REQ + ["DS.Model.ReadBlocks"], exprs, chunk=40)
+    except RuntimeError as e:
+        ctx.proof_problems.append(f"model evaluation failed (block decoding, {tag}): " + str(e)[:600])
+        return
+    bad = []
+    multi = 0
+    for (role, kind, b), g in zip(cases, got):
+        ok, recs, handed, nblocks = g      # left-nested pairs print flat
+        multi += 1 if nblocks > 1 else 0
+        full = classify(kind, b)
+        n_before, raised = decodable_prefix(b)
+        if role == "list":
+            want = [mc.key(p.lstrip("/")) if p else None for p in full[1]] if full[0] == "ok" else None
+            have = [(x.x if hasattr(x, "x") else x) for x in recs]
+        else:
+            want = [(mc.key(p.lstrip("/")), c, (int(h[:12], 16) if h else None)) for p, c, h in full[1]] if full[0] == "ok" else None
+            have = [(k, c, (h.x if hasattr(h, "x") else h)) for k, c, h in recs]
+        why = None
+        if ok != (full[0] == "ok"):
+            why = f"whole file {'decodes' if full[0] == 'ok' else 'raises ' + str(full[1][:1])} / collect over its blocks {'returns' if ok else 'raises'}"
+        elif ok and have != want:
+            why = f"records: whole file {want} / collect {have}"
+        elif not ok and raised and handed != n_before:
+            why = f"records handed out before the raise: fastavro {n_before} / stream {handed}"
+        if why:
+            bad.append({"table": tag, "role": role, "blocks": nblocks, "bytes": len(b), "why": why})
+    ctx.stats.setdefault("block_decoding", {})[tag] = {"byte_strings": len(cases), "of_several_blocks": multi}
+    ctx.correspondence("collect_blocks", len(cases), bad)
+
+
+def oracle_reread(ctx, path: str, shape: List[Any], variant: Optional[str], tag: str, block_plane_only: bool = False) -> None:
     """Every reachable file x damage inside the property x ONE long-lived handle: the nine reads (API x verify, the
     order rotating with the damage) with the damage in place -- from the first one that raises on, each is a read
     AFTER a read that raised -- then the same nine reads after the failure has cleared (files restored, no fault).
@@ -2132,15 +2221,21 @@ def oracle_reread(ctx, path: str, shape: List[Any], variant: Optional[str], tag:
     mc = ModelCtx(inv)
     rec_healthy = recovered_by_scan(inv)
     targets = inv.reachable() + ([(HINT_PATH, "pointer")] if HINT_PATH in inv.roles else [])
-    if data_limit is not None:
-        data = [x for x in targets if x[1] == "data"]
-        targets = [x for x in targets if x[1] != "data"] + (ctx.rng.sample(data, data_limit) if len(data) > data_limit else data)
+    if block_plane_only:
+        # a table built for its block structure: the Avro containers only, damage placed by block (+ the file gone);
+        # the other roles and damages are the standard table's business
+        targets = [x for x in targets if x[1] in ("list", "manifest")]
     ctx.stats.setdefault("avro_blocks", {})[tag] = {r + "#" + str(i): len(avro_blocks(inv.files[q])) for i, (q, r) in enumerate(inv.reachable()) if r in ("list", "manifest")}
     cases: List[Dict[str, Any]] = []
     reported = set()
     n_sessions = n_reads = n_judged = 0
+    containers: List[Tuple[str, bytes]] = [(r, inv.files[q]) for q, r in targets if r in ("list", "manifest")]
     for p, role in targets:
         for dmg in reread_damages(inv, p, role, ctx.rng, ctx.tier):
+            if role in ("list", "manifest") and dmg["writes"].get(p):
+                containers.append((role, dmg["writes"][p]))
+            if block_plane_only and not (dmg.get("tail") or dmg["name"] == "delete"):
+                continue
             in_scope, data_changed = damage_scope(inv, p, role, dmg)
             if not (in_scope or data_changed):
                 continue
@@ -2191,6 +2286,7 @@ def oracle_reread(ctx, path: str, shape: List[Any], variant: Optional[str], tag:
                     expr, late = model_expr(mc, {"writes": {}}, rec_healthy, api, verify)
                 cases.append({"case": dict(case, reread={"state": state, "position": i}), "impl": res["impl"], "trace": res["trace"], "expr": expr, "late": late})
     ctx.stats.setdefault("read_again_after_raise", {})[tag] = {"handles": n_sessions, "reads": n_reads, "reads_after_a_raise": n_judged}
+    corr_blocks(ctx, mc, containers, tag)
     t_impl = time.time()
     exprs = list(dict.fromkeys(c["expr"] for c in cases))
     try:
@@ -2220,8 +2316,11 @@ def run(ctx) -> None:
                 "byte flips at sampled and structural offsets, swap with a sibling of the same kind, transient OSError at every call "
                 "site incl. mid-stream} x {scan, scan(parallel=2), scan_batches(2), iter_records, row_count} x verify on/off; "
                 "a case is distinct by (table, file, damage, api, verify); the same through ONE handle that read the undamaged table "
-                "before the damage, and through ONE handle on which an earlier read RAISED (the nine reads with the damage in place, "
-                "then the nine reads after it has cleared; distinct by (table, file, damage, api, verify, damaged|cleared))")
+                "before the damage, and through ONE handle on which an earlier read RAISED (the nine reads, each twice, with the damage in place, "
+                "then the nine reads after it has cleared; distinct by (table, file, damage, api, verify, damaged|cleared)); "
+                "on Avro containers additionally per block {first, second, last}: cut mid-block, random bytes from mid-block on, count "
+                "byte flipped, stream failing once the bytes before mid-block were delivered -- on tables whose manifest list / "
+                "manifests span several blocks (one record per block; one bulk commit), every read twice on the same handle")
     ctx.trusted_base += [
         "translator/gen_read.py (exception tuples of the two Avro fallbacks; golden ASTs of 25 read-path functions)",
         "parser outcomes fed to the model are measured with fastavro / json / pyarrow on the same bytes "
@@ -2283,10 +2382,10 @@ def run(ctx) -> None:
                                             if ctx.tier == "thorough" else [])):
         oracle_reread(ctx, os.path.join(ctx.scratch, f"tr{i}"), shape, variant, f"read-again:{variant or ('history' if i else 'standard')}")
     # containers of SEVERAL blocks: re-encoded one record per block (small table, every file), and as a bulk commit
-    # produces them (one manifest of enough entries; the metadata plane and a sample of the data files)
+    # produces them (one manifest of enough entries; its Avro containers, damage placed by block)
     oracle_reread(ctx, os.path.join(ctx.scratch, "trb"), VARIANTS["blocks"][0], "blocks", "read-again:blocks")
     wide = wide_commit_shape(os.path.join(ctx.scratch, "trw0"))
-    oracle_reread(ctx, os.path.join(ctx.scratch, "trw"), wide + ([[1]] if ctx.tier == "thorough" else []), None, "read-again:wide-commit", data_limit=2)
+    oracle_reread(ctx, os.path.join(ctx.scratch, "trw"), wide + ([[1]] if ctx.tier == "thorough" else []), None, "read-again:wide-commit", block_plane_only=True)
     for i, (variant, sess) in enumerate([(None, False), ("no-pointer", False), (None, True)]
                                          + ([("bad-pointer", False), ("json", False), ("legacy-pointer-missing-file", False), ("no-pointer", True),
                                              ("dup", False)] if ctx.tier == "thorough" else [])):
